@@ -206,6 +206,14 @@ func runC05(rc *RunCtx) {
 		}
 	}
 	results := make([]c05Result, len(reqs))
+	// a poller's working day: the same requests are sent again and again over the same clients (1 run in 150, and only
+	// with devices that answer in full); every cycle must extract what the first one did
+	cycles, cycleBad := 0, ""
+	if shortRate != 1 && len(fields) < 1000 && t.Chance(1, 150) {
+		cycles = []int{40, 130, 260, 300}[t.Choose(4)] + t.Choose(10)
+		s.MaxSteps = 3000000
+		rc.Probe("same_requests_polled_hundreds_of_times")
+	}
 	var panics []PanicRec
 	s.Go("poller", false, func(tk *Task) {
 		// One client per server address, kept for the whole poll cycle; all responses are collected first and the
@@ -235,6 +243,24 @@ func runC05(rc *RunCtx) {
 				r.values, r.exErr = reqs[i].ExtractFields(r.resp, lenient)
 			}
 		}
+		for c := 1; c <= cycles && cycleBad == ""; c++ {
+			for i := range reqs {
+				r := &results[i]
+				if r.doErr != nil {
+					continue
+				}
+				resp, err := clients[reqs[i].ServerAddress].Do(context.Background(), reqs[i].Request)
+				if err != nil {
+					cycleBad = fmt.Sprintf("poll cycle %d: request start=%d to %s/%d failed: %v", c+1, reqs[i].StartAddress, reqs[i].ServerAddress, reqs[i].UnitID, err)
+					break
+				}
+				vals, exErr := reqs[i].ExtractFields(resp, lenient)
+				if got, first := renderFieldValues(vals, exErr), renderFieldValues(r.values, r.exErr); got != first {
+					cycleBad = fmt.Sprintf("poll cycle %d: request start=%d to %s/%d extracted %s, the first cycle %s", c+1, reqs[i].StartAddress, reqs[i].ServerAddress, reqs[i].UnitID, trunc([]byte(got), 160), trunc([]byte(first), 160))
+					break
+				}
+			}
+		}
 		for _, addr := range servers {
 			if cl := clients[addr]; cl != nil && shortRate != 1 {
 				cl.Close()
@@ -254,6 +280,10 @@ func runC05(rc *RunCtx) {
 	}
 	if hang {
 		rc.Violate("hang", sigBase, "run did not finish")
+		return
+	}
+	if cycleBad != "" {
+		rc.Violate("result_changes_over_poll_cycles", sigBase, "%s", cycleBad)
 		return
 	}
 
